@@ -22,6 +22,7 @@ def check(ctx):
     P = ctx.program
     iters = (0, 1)
     patience(ctx, P, iters)
+    patience_writers(ctx, P)
     renege_scan(ctx, P)
     views = family_views(P, "Node")
     c03.terminal_records(ctx, P, views, iters)
@@ -81,6 +82,21 @@ def patience(ctx, P, iters):
                     ctx.violation(ob, "R7.patience", "%s.begin_service_if_possible_accept" % cls2.name, asg[0].text if asg else "reneging_date", "patience-not-armed",
                                   "an arriving customer's reneging_date must be set from get_reneging_date(customer) whenever the node has reneging", loc(fn2), witness(st))
                     break
+
+
+def patience_writers(ctx, P):
+    ob = ctx.ob("PATW", "reneging_date is assigned only when the customer joins the queue (accept), when it reneges, or when it is re-queued by a pre-emption: the patience sampled at arrival is never replaced during the wait")
+    allowed = {"begin_service_if_possible_accept", "renege", "preempt", "interrupt_service", "__init__"}
+    n = 0
+    for ci, fn, node, recv, how in rules.attr_writes(P, "reneging_date"):
+        n += 1
+        q = rules.qual(ci, fn)
+        names = rules.effective_names(P, ci, fn)
+        ob.ok("%s" % q, "%s: %s" % (q, unparse(node)[:70]))
+        if not names & allowed:
+            ctx.violation(ob, "R1.patience-writer", q, unparse(node)[:90], "patience-rewritten-during-wait",
+                          "reneging_date is re-assigned while the customer keeps waiting: it must leave exactly at arrival + the patience sampled on arrival", loc(node))
+    ctx.floor("writes of reneging_date", n, 2)
 
 
 def renege_scan(ctx, P):
